@@ -2,6 +2,7 @@ import YaqsModel.Lemmas.Sweep
 import YaqsModel.Lemmas.Conserve
 import YaqsModel.Lemmas.ConserveStep
 import YaqsModel.Props.C19
+import YaqsModel.Lemmas.Bug
 
 /-!
 # C05 — noise-free analog evolution: unitary, energy-conserving, converges to exp(-iHt)
@@ -1026,3 +1027,287 @@ example : (⟨fun _ => 0, fun _ => 1, fun _ _ => True, fun _ x => x⟩ : TdvpSys
   ⟨fun _ _ _ _ _ _ _ => ⟨rfl, rfl, trivial⟩, fun _ _ _ _ _ _ _ => ⟨trivial, by simp, le_refl _, by simp⟩⟩
 
 end Yaqs.Sweep
+
+
+/-!
+# C05 extension (xb05) — the BUG integrator (`core/methods/bug.py`) inside the model
+
+`bug_order` / `bug_loss` above know only the order of the `update_site` calls of a `bug` call.  The theorems below cover the
+functions of bug.py themselves — `prepare_canonical_site_tensors`, `choose_stack_tensor`, `find_new_q`,
+`build_basis_change_tensor`, `local_update`, `bug` (the rank-augmenting basis-update & Galerkin integrator of
+Ceruti–Lubich–Walach / Ceruti–Kusch–Lubich, swept from the last site to site 1, root = site 0):
+
+1. `bug_full_erases_to_trace`, `bug_full_each_statement_once`, `bug_bond_growth` — schedule and bond dimensions: the step list
+   `bugFull` of `Model/Bug.lean` (every state-touching statement; tied to the real functions by the `fullbug` trace) erases to
+   the tied primitive list `bug L`; the bonds before `truncate` grow to at most twice their size.
+2. `bug_canonical_tensors`, `bug_prep_isometries` — `canon_tensors[i]` is the orthogonality centre when the chain is gauged to
+   site `i`.
+3. `bug_new_basis_contains_old` — the stacked QR: the new basis contains the old one, `M` reproduces the old tensor.
+4. `bug_sweep_represents_old_state` — after the sweep the chain `[A₀·M₁, new_q₁, …, new_q_{L-1}]` has exactly the amplitudes of
+   the state handed to `bug`, WHATEVER `update_site` returned at the sites `L-1 … 1` (those results only enlarge the basis).
+5. `bug_step_conserves_norm`, `bug_root_flow_conserves_norm`, `bug_truncate_budget` — norm: exactly conserved before `truncate`
+   (hypotheses: QR specs, new tensors right-isometric, the ROOT update is the flow of a Hermitian matrix), then
+   `≥ norm − (L−1)·threshold`.  Energy: see the doc comment of `bug_step_conserves_norm`.
+6. `bug_first_order_consistent` — one site: the call is the exact flow; general chains: cited.
+-/
+
+namespace Yaqs.Sweep
+
+/-- **C05.23 `bug_full_erases_to_trace`** (schedule of `bug`, every statement).  For every chain length the step list
+    `bugFull L` — the `L-1` iterations of `prepare_canonical_site_tensors` (`right_qr`, centre tensor, left block), then for every
+    site `L-1 … 1` the seven statements of `local_update` (`update_site` with the full step, `choose_stack_tensor`, `find_new_q`,
+    `build_basis_change_tensor`, `state.tensors[k] = new_q`, the hand-over `canon[k-1] · M_k`, `update_right_environment`), then
+    `update_site` on site 0, its assignment, `truncate` — erases to exactly the primitive list `bug L` that `bug_order` is about
+    and that the correspondence check compares with the recorded `update_site` / `truncate` calls; it has `10(L-1)+3` steps. -/
+theorem bug_full_erases_to_trace (L : Nat) :
+    bprims (bugFull L) = bug L ∧ (bugFull L).length = 10 * (L - 1) + 3 := by
+  constructor
+  · simp [bugFull, bug, bprims_append, bprims_prepSteps, bprims_bugDownFull, bprims]
+  · simp only [bugFull, List.length_append, prepSteps_length, bugDownFull_length, List.length_cons, List.length_nil]
+    omega
+
+/-- **C05.24 `bug_full_each_statement_once`** every non-primitive statement of `local_update` — stack choice (the state's own
+    tensor exactly at the last site `k = L-1`, the centre tensor otherwise), stacked QR, basis-change matrix, assignment of the
+    new tensor, hand-over to the left neighbour, right block — is executed exactly once for every site `1 ≤ k ≤ L-1` and never
+    for site 0 or beyond the chain; in particular no site keeps its old basis and no environment is reused stale. -/
+theorem bug_full_each_statement_once (L k : Nat) (st : BStep) (hst : st ∈ basisSteps L k) :
+    (bugFull L).count st = if 1 ≤ k ∧ k ≤ L - 1 then 1 else 0 := by
+  have hp : ∀ i, st ≠ .prepQR i ∧ st ≠ .prepCentre i ∧ st ≠ .prepEnv i := by
+    intro i
+    simp only [basisSteps, List.mem_cons, List.not_mem_nil, or_false] at hst
+    rcases hst with rfl | rfl | rfl | rfl | rfl | rfl <;> simp
+  have ht : ([BStep.prim (.site 0 1), .setRoot, .prim .trunc] : List BStep).count st = 0 := by
+    simp only [basisSteps, List.mem_cons, List.not_mem_nil, or_false] at hst
+    rcases hst with rfl | rfl | rfl | rfl | rfl | rfl <;> simp
+  simp only [bugFull, List.count_append, count_prepSteps st hp, count_bugDownFull L k st hst, ht]
+  omega
+
+/-- **C05.25 `bug_bond_growth`** (rank augmentation).  `b = [b₁,…,b_{L-1}]` the internal bonds handed to `bug`, `d` the physical
+    dimension, `bugBonds d b` the bonds after the sweep and before `truncate` (value-tied to the shapes of the real tensors):
+    same number of bonds, every new bond is at most TWICE the old one (old basis stacked with the updated one) and at most
+    `d` times the new bond to its right (`1` beyond the last site) — so a chain of bond dimension `χ` never exceeds `2χ` inside
+    a `bug` call, whatever the cap; the cap is enforced by `truncate` alone (C08 `c08_bug_bounded`). -/
+theorem bug_bond_growth (d : Nat) (b : List Nat) :
+    (bugBonds d b).length = b.length ∧
+    ∀ k, (bugBonds d b).getD k 0 ≤ 2 * b.getD k 0 ∧ (bugBonds d b).getD k 0 ≤ d * (bugBonds d b).getD (k + 1) 1 := by
+  have hl := centreDims_length d b 1
+  obtain ⟨h1, h2⟩ := newBondsAux_spec d (b.zip (centreDims d 1 b)) (centreDims_le d b 1)
+  have hm : (b.zip (centreDims d 1 b)).map Prod.fst = b := List.map_fst_zip (by omega)
+  refine ⟨by simp [bugBonds, h1, hl], fun k => ?_⟩
+  have := h2 k
+  rw [hm] at this
+  exact this
+
+/-- **C05.26 `bug_truncate_budget`** (norm after `truncate`).  A `bug` call contains exactly `L-1` truncating SVDs — the bonds
+    swept by the final `state.truncate` — and no other lossy statement; so along any norm trace of the call (every `update_site`
+    norm-preserving, every truncating SVD discarding at most `thr`: C09 `c09_twosite_weight`) the squared norm ends in
+    `[x − (L−1)·thr, x]`.  With `bug_step_conserves_norm` (the value before `truncate` IS the old norm) this is the BUG part of
+    clause (a) with the sharper constant `L−1` instead of `2L`. -/
+theorem bug_truncate_budget (L : Nat) (thr : Rat) (x y : Rat) (ht : NormTrace L thr (bug L) x y) :
+    lossTotal L (bug L) = L - 1 ∧ x - ((L - 1 : Nat) : Rat) * thr ≤ y ∧ y ≤ x := by
+  have hl : lossTotal L (bug L) = L - 1 := by
+    simp only [bug, lossTotal_append, bugDown_loss, lossTotal, lossCount]
+    omega
+  have := normTrace_bound L thr _ x y ht
+  rw [hl] at this
+  exact ⟨hl, this⟩
+
+/-- **C05.27 `bug_first_order_consistent`** (clause (c), BUG).  On ONE site a `bug` call is: no preparation step, no basis
+    update, one `update_site` on the only tensor with the full step `1·dt` between the two boundary blocks, its assignment, and a
+    `truncate` that sweeps no bond — i.e. the call applies `exp(-i·dt·H)` itself (`herm_flow_*`; H_eff with identity blocks is
+    `H`: `energy_is_local_site` with `ls = rs = []`), for every `dt`: the integrator is exact there, in particular consistent.
+    For `L ≥ 2` what is proved is `bug_order` (every site once, coefficient 1), `bug_sweep_represents_old_state` (the basis
+    update loses nothing of the old state) and `bug_step_conserves_norm`; the robust first-order error bound
+    `‖ψ₁ − exp(-i·dt·H)ψ₀‖ ≤ C·dt² + C'·ε` per step of Ceruti–Lubich–Walach (SIAM J. Numer. Anal. 59, 2021, Thm 4.1) and
+    Ceruti–Kusch–Lubich (BIT 62, 2022, Thm 2 for the augmented variant) is CITED, not formalised; the check measures it
+    (Richardson ratio ≥ 1.6). -/
+theorem bug_first_order_consistent :
+    bugFull 1 = [.prim (.site 0 1), .setRoot, .prim .trunc] ∧ lossTotal 1 (bug 1) = 0 ∧
+    coverage 0 (bug 1) = 1 ∧ ∀ d, bugBonds d [] = [] := by
+  refine ⟨by decide +kernel, by decide +kernel, by decide +kernel, fun d => rfl⟩
+
+/-- non-vacuity: the whole step list on three sites; bonds (2,4,2) of a four-site qubit chain grow to (4,4,2): the middle bond
+    is already at its maximum `d·(right bond)`, the first one doubles -/
+example : bugFull 3 =
+    [.prepQR 0, .prepCentre 0, .prepEnv 0, .prepQR 1, .prepCentre 1, .prepEnv 1,
+     .prim (.site 2 1), .stack 2 true, .newQ 2, .basis 2, .setQ 2, .pass 2, .rightEnv 2,
+     .prim (.site 1 1), .stack 1 false, .newQ 1, .basis 1, .setQ 1, .pass 1, .rightEnv 1,
+     .prim (.site 0 1), .setRoot, .prim .trunc] ∧
+    bugBonds 2 [2, 4, 2] = [4, 4, 2] ∧ bugBonds 2 [1, 1, 1, 1] = [2, 2, 2, 2] ∧ bugBonds 3 [2, 2] = [4, 3] := by
+  decide +kernel
+
+example : NormTrace 3 (1 / 100) (bug 3) 1 (98 / 100) :=
+  NormTrace.step _ _ 1 1 _ (by norm_num [lossCount]) (by norm_num)
+    (NormTrace.step _ _ 1 1 _ (by norm_num [lossCount]) (by norm_num)
+      (NormTrace.step _ _ 1 1 _ (by norm_num [lossCount]) (by norm_num)
+        (NormTrace.step _ _ 1 (98 / 100) _ (by norm_num [lossCount]) (by norm_num) (NormTrace.nil _))))
+
+end Yaqs.Sweep
+
+namespace Yaqs.Mps.Alg
+
+open Matrix
+
+variable {K : Type*} [CommRing K] {ι σ : Type*} [Fintype ι] [DecidableEq ι]
+
+/-- **C05.28 `bug_canonical_tensors`** (`prepare_canonical_site_tensors`).  Chain `A₀ :: rest` of any length over any commutative
+    ring, `qr` any function with the spec of `right_qr` (`C s = Q s * R`).  The function returns `canon_tensors = prepCanon`
+    (`canon[0] = A₀`, `canon[i] = R_{i-1} · A_i` with `R_{i-1}` from the QR of `canon[i-1]`) and uses the `Q` factors only for the
+    left blocks.  For EVERY `i`: replacing the tensors `0 … i-1` by their `Q` factors and tensor `i` by `canon_tensors[i]`, all
+    tensors right of `i` untouched, leaves every amplitude unchanged — `canon_tensors[i]` is the tensor that is the orthogonality
+    centre when the chain is gauged to site `i` (the `Q`s are left-isometric: `bug_prep_isometries`).  Induction over the chain
+    with C10's QR-shift identity (`c10_shift_right_QR`: `Q s * (R * B t) = A s * B t`) as the step. -/
+theorem bug_canonical_tensors (qr : Site σ ι K → Site σ ι K × Matrix ι ι K)
+    (hqr : ∀ (C : Site σ ι K) s, C s = (qr C).1 s * (qr C).2)
+    (A0 : Site σ ι K) (rest : List (Site σ ι K)) (i : Nat) (C : Site σ ι K) (cfg : List σ)
+    (hC : (prepCanon qr A0 rest)[i]? = some C) (hlen : cfg.length = rest.length + 1) :
+    chain ((prepQs qr A0 rest).take i ++ C :: rest.drop i) cfg = chain (A0 :: rest) cfg ∧
+    (prepCanon qr A0 rest).length = rest.length + 1 ∧ (prepQs qr A0 rest).length = rest.length :=
+  ⟨prep_canonical qr hqr rest A0 i C cfg hC hlen, prepCanon_length qr rest A0, prepQs_length qr rest A0⟩
+
+/-- **C05.29 `bug_prep_isometries`** every `left_q` that `prepare_canonical_site_tensors` feeds into
+    `update_left_environment` is left-isometric when `right_qr` returns isometries (`QᴴQ = 1`, spec-tied) — so the left blocks
+    are those of the mixed-canonical chain of C05.28 and `update_site` at site `k` sees an orthonormal left frame. -/
+theorem bug_prep_isometries [StarRing K] [Fintype σ] (qr : Site σ ι K → Site σ ι K × Matrix ι ι K)
+    (hiso : ∀ C : Site σ ι K, LeftIso (qr C).1) (A0 : Site σ ι K) (rest : List (Site σ ι K)) :
+    ∀ Q ∈ prepQs qr A0 rest, LeftIso Q :=
+  prepQs_leftIso qr hiso rest A0
+
+/-- **C05.30 `bug_new_basis_contains_old`** (`find_new_q`, `build_basis_change_tensor`; every leg with its own index type).
+    `find_new_q` stacks the old tensor `X` (rows `l`) on top of the updated tensor `Y` (rows `l'`) along the left leg and
+    `left_qr` factorises the stack as `[X; Y](s) = [T; T'] · new_q(s)` with `new_q` right-isometric
+    (`Σ_s new_q(s)·new_q(s)ᴴ = 1` on the `n` new rows).  Then
+    (i) the range of the new basis contains both the old tensor and the updated one: projecting onto it loses nothing,
+        `(Σ_s X(s)·new_q(s)ᴴ)·new_q(t) = X(t)` and the same for `Y` — the augmentation property that makes the Galerkin step
+        exact on the old state;
+    (ii) the basis-change matrix `M = Σ_s X(s)·new_q(s)ᴴ` (what `build_basis_change_tensor` contracts, for `old_m = 1`) is the
+        block `T` of the `R` factor and satisfies `M·new_q(t) = X(t)`.
+    (The code sweeps right-to-left, so "basis" = row space of the (left) × (phys·right) unfolding; the statement of the brief
+    `Q_new·Q_newᴴ·A_old = A_old`, `Q_new·M = A_old` is this one transposed.) -/
+theorem bug_new_basis_contains_old [StarRing K] [Fintype σ] {l l' n r : Type*} [Fintype l] [Fintype l'] [Fintype n] [Fintype r]
+    [DecidableEq n] (X : σ → Matrix l r K) (Y : σ → Matrix l' r K) (Qn : σ → Matrix n r K)
+    (T : Matrix l n K) (T' : Matrix l' n K) (hX : ∀ s, X s = T * Qn s) (hY : ∀ s, Y s = T' * Qn s)
+    (hQ : ∑ s, Qn s * (Qn s)ᴴ = 1) :
+    (∀ t, (∑ s, X s * (Qn s)ᴴ) * Qn t = X t) ∧ (∀ t, (∑ s, Y s * (Qn s)ᴴ) * Qn t = Y t) ∧
+    (∑ s, X s * (Qn s)ᴴ) = T ∧ (∑ s, Y s * (Qn s)ᴴ) = T' := by
+  have h1 := stack_projection X Qn T hX (by rw [hQ, Matrix.mul_one])
+  have h2 := stack_projection Y Qn T' hY (by rw [hQ, Matrix.mul_one])
+  exact ⟨h1.2, h2.2, h1.1, h2.1⟩
+
+/-- **C05.31 `bug_sweep_represents_old_state`** (the whole right-to-left sweep of `bug`).  `A₀ :: As` the chain handed to `bug`;
+    for every site `k = 1 … L-1` (listed left to right in `upds`) `A = state.tensors[k]`, `nq = new_q`, `T` the upper block of
+    `left_qr`'s `R` factor.  `Mof` are the matrices `build_basis_change_tensor` computes (`M_L = 1`,
+    `M_k = Σ_s A_k(s)·M_{k+1}·new_q_k(s)ᴴ`).  Hypotheses (`SweepSpec`): the spec of `right_qr`; at every site the stack tensor that
+    `choose_stack_tensor` picks — the state's own tensor at the last site, the centre tensor `R_{k-1}·A_k·M_{k+1}` elsewhere — is
+    `T·new_q` and `new_q` is right-isometric where `T` lives.  Conclusion, for every length: the chain
+    `[A₀·M₁, new_q₁, …, new_q_{L-1}]` — the MPS the root update starts from (`canon_center_tensors[0]` after the hand-overs and
+    the new `state.tensors[1:]`) — has exactly the amplitudes of the old chain.  Nothing is assumed about what `update_site`
+    returned at the sites `L-1 … 1`: those tensors only enlarge the basis.  (If the stack omitted the old tensor, or `M` were
+    built from the updated tensor, the hypothesis `stack = T·new_q` / the definition of `Mof` would fail — the mutations the tie
+    is asked to catch.) -/
+theorem bug_sweep_represents_old_state [StarRing K] [Fintype σ] (qr : Site σ ι K → Site σ ι K × Matrix ι ι K)
+    (hqr : ∀ (C : Site σ ι K) s, C s = (qr C).1 s * (qr C).2)
+    (A0 : Site σ ι K) (upds : List (SiteUpd σ ι K)) (hspec : SweepSpec qr A0 upds)
+    (cfg : List σ) (hlen : cfg.length = upds.length + 1) :
+    chain ((fun s => A0 s * Mof upds) :: upds.map (·.nq)) cfg = chain (A0 :: upds.map (·.A)) cfg :=
+  bugSweep_chain qr hqr upds A0 cfg hspec hlen
+
+/-- **C05.32 `bug_step_conserves_norm`** (clause "keeps the state normalised", BUG, before `truncate`).  Same setting; `U₀` is
+    the tensor the root update returns (`state.tensors[0] = update_site(left_envs[0], right_block, W₀, A₀·M₁, dt)`).  If
+    (a) the new frame is isometric on the right leg of the root tensor — `gramR` of the new tensors acts as the identity on
+        `U₀` and on `A₀·M₁`; for right-isometric `new_q`s `gramR = 1` (`bug_step_conserves_norm_iso`) — and
+    (b) the root update preserves the Frobenius norm of the root tensor — it is the flow `exp(-i·dt·H_eff)` of the Hermitian
+        dense effective Hamiltonian when the Krylov exponential is exact: `bug_root_flow_conserves_norm` from `herm_flow_unitary`,
+        Hermiticity from C19's `heff_hermitian_chain` —
+    then `⟨ψ|ψ⟩` after the whole sweep EQUALS `⟨ψ|ψ⟩` of the state handed to `bug`, for every chain length.  The `L-1` updates at
+    the sites `L-1 … 1` do not enter at all.
+    Energy, stated honestly: the same argument gives `⟨ψ|H|ψ⟩` after the sweep = before, PROVIDED the root update is the exact
+    flow (`site_update_conserves_energy` with `ls = []` on the chain `[A₀·M₁, new_q…]`, which represents the old state by
+    C05.31) — the augmented BUG conserves norm and energy up to the tolerance of the final truncation (Ceruti–Kusch–Lubich 2022,
+    §3.3); this is measured by the tie (`bug-step`: |ΔE| ≤ 1e-9·(1+‖H‖) before `truncate`) but not assembled into one Lean
+    theorem because C05.11 lives in the index model of `Model/Heff.lean` and C05.31 in the matrix-chain model of C10.  What BUG
+    does NOT conserve is energy through `truncate` beyond `‖H‖(2√w + w)` per discarded weight `w`, nor anything to higher than
+    first order in `dt` for the state itself. -/
+theorem bug_step_conserves_norm [StarRing K] [Fintype σ] (qr : Site σ ι K → Site σ ι K × Matrix ι ι K)
+    (hqr : ∀ (C : Site σ ι K) s, C s = (qr C).1 s * (qr C).2)
+    (A0 U0 : Site σ ι K) (upds : List (SiteUpd σ ι K)) (hspec : SweepSpec qr A0 upds)
+    (hframeU : ∀ s, U0 s * gramR (upds.map (·.nq)) = U0 s)
+    (hframeC : ∀ s, A0 s * Mof upds * gramR (upds.map (·.nq)) = A0 s * Mof upds)
+    (hroot : ∑ s, Matrix.trace (U0 s * (U0 s)ᴴ) = ∑ s, Matrix.trace ((A0 s * Mof upds) * (A0 s * Mof upds)ᴴ)) :
+    normSq (U0 :: upds.map (·.nq)) = normSq (A0 :: upds.map (·.A)) := by
+  have e1 : normSq (U0 :: upds.map (·.nq)) = ∑ s, Matrix.trace (U0 s * (U0 s)ᴴ) := by
+    rw [normSq_eq_trace_gram, gramR, Matrix.trace_sum]
+    exact Finset.sum_congr rfl fun s _ => by rw [hframeU s]
+  have e2 : normSq ((fun s => A0 s * Mof upds) :: upds.map (·.nq)) =
+      ∑ s, Matrix.trace ((A0 s * Mof upds) * (A0 s * Mof upds)ᴴ) := by
+    rw [normSq_eq_trace_gram, gramR, Matrix.trace_sum]
+    exact Finset.sum_congr rfl fun s _ => by rw [hframeC s]
+  rw [e1, hroot, ← e2]
+  apply normSq_congr
+  · simp
+  · intro cfg hc
+    exact bugSweep_chain qr hqr upds A0 cfg hspec (by simpa using hc)
+
+/-- **C05.32b `bug_step_conserves_norm_iso`** the same with hypothesis (a) discharged for unpadded bonds: every `new_q` is
+    right-isometric (`Σ_s new_q(s)·new_q(s)ᴴ = 1`, the spec of `left_qr`, checked on every real `new_q` by the tie). -/
+theorem bug_step_conserves_norm_iso [StarRing K] [Fintype σ] (qr : Site σ ι K → Site σ ι K × Matrix ι ι K)
+    (hqr : ∀ (C : Site σ ι K) s, C s = (qr C).1 s * (qr C).2)
+    (A0 U0 : Site σ ι K) (upds : List (SiteUpd σ ι K)) (hspec : SweepSpec qr A0 upds)
+    (hiso : ∀ u ∈ upds, RightIso u.nq)
+    (hroot : ∑ s, Matrix.trace (U0 s * (U0 s)ᴴ) = ∑ s, Matrix.trace ((A0 s * Mof upds) * (A0 s * Mof upds)ᴴ)) :
+    normSq (U0 :: upds.map (·.nq)) = normSq (A0 :: upds.map (·.A)) := by
+  have hg : gramR (upds.map (·.nq)) = 1 := by
+    apply gramR_rightIso
+    intro A hA
+    obtain ⟨u, hu, rfl⟩ := List.mem_map.mp hA
+    exact hiso u hu
+  exact bug_step_conserves_norm qr hqr A0 U0 upds hspec (fun s => by rw [hg, Matrix.mul_one])
+    (fun s => by rw [hg, Matrix.mul_one]) hroot
+
+/-- the root tensor as a vector (`tensor.reshape(-1)` up to the order of the legs, which a unitary map does not care about) -/
+def flatSite (A : Site σ ι ℂ) : σ × ι × ι → ℂ := fun p => A p.1 p.2.1 p.2.2
+
+/-- **C05.33 `bug_root_flow_conserves_norm`** hypothesis (b) of C05.32 from xe05's flow theorem: if the flattened new root
+    tensor is `exp(-(t·i)•Kh)` applied to the flattened old one for a Hermitian `Kh` (the dense `H_eff` of site 0) and a real
+    `t` (`= dt`), the Frobenius norms agree.  Hypothesis left: `expm_krylov` returns that vector (C19). -/
+theorem bug_root_flow_conserves_norm [Fintype σ] [DecidableEq σ] (Kh : Matrix (σ × ι × ι) (σ × ι × ι) ℂ) (hK : Khᴴ = Kh)
+    (t : ℝ) (C0 U0 : Site σ ι ℂ)
+    (hstep : flatSite U0 = NormedSpace.exp (-((t : ℂ) * Complex.I) • Kh) *ᵥ flatSite C0) :
+    ∑ s, Matrix.trace (U0 s * (U0 s)ᴴ) = ∑ s, Matrix.trace (C0 s * (C0 s)ᴴ) := by
+  have key : ∀ A : Site σ ι ℂ, ∑ s, Matrix.trace (A s * (A s)ᴴ) = star (flatSite A) ⬝ᵥ flatSite A := by
+    intro A
+    simp only [Matrix.trace, Matrix.diag, Matrix.mul_apply, Matrix.conjTranspose_apply, dotProduct, flatSite,
+      Fintype.sum_prod_type, Pi.star_apply]
+    refine Finset.sum_congr rfl fun s _ => Finset.sum_congr rfl fun a _ => Finset.sum_congr rfl fun b _ => ?_
+    ring
+  rw [key U0, key C0, hstep]
+  exact (Yaqs.Conserve.herm_flow_unitary Kh hK t).2.2 (flatSite C0)
+
+/-! ### non-vacuity -/
+
+/-- a `qr` with the spec of `right_qr` that is not the identity: `Q = C · R⁻¹`, `R = [[1,1],[0,1]]` over ℤ -/
+def exBugQr : Site (Fin 2) (Fin 2) ℤ → Site (Fin 2) (Fin 2) ℤ × Matrix (Fin 2) (Fin 2) ℤ :=
+  fun C => (fun s => C s * !![1, -1; 0, 1], !![1, 1; 0, 1])
+
+theorem exBugQr_spec (C : Site (Fin 2) (Fin 2) ℤ) (s : Fin 2) : C s = (exBugQr C).1 s * (exBugQr C).2 := by
+  have : (!![1, -1; 0, 1] : Matrix (Fin 2) (Fin 2) ℤ) * !![1, 1; 0, 1] = 1 := by decide +kernel
+  simp only [exBugQr, Matrix.mul_assoc, this, Matrix.mul_one]
+
+/-- two sites, bonds 1–2–1 zero-padded into `Fin 2`: `A₁(s) = T·new_q(s)` with `new_q(0) = e₀e₀ᵀ`, `new_q(1) = e₁e₀ᵀ`
+    (right-isometric on both new rows) and `T = [[2,3],[0,0]]`; the hypotheses of C05.31 / C05.32b hold and `M₁ = T ≠ 1` -/
+def exBugUpd : SiteUpd (Fin 2) (Fin 2) ℤ where
+  A := fun s => if s = 0 then !![2, 0; 0, 0] else !![3, 0; 0, 0]
+  nq := fun s => if s = 0 then !![1, 0; 0, 0] else !![0, 0; 1, 0]
+  T := !![2, 3; 0, 0]
+
+example : SweepSpec exBugQr (fun s => if s = 0 then !![1, 2; 0, 0] else !![0, 1; 0, 0]) [exBugUpd] ∧
+    RightIso exBugUpd.nq ∧ Mof [exBugUpd] = !![2, 3; 0, 0] := by
+  refine ⟨⟨by decide +kernel, ?_, trivial⟩, by unfold RightIso; decide +kernel, by decide +kernel⟩
+  intro s
+  fin_cases s <;> decide +kernel
+
+example : (prepCanon exBugQr (fun s => if s = 0 then !![1, 2; 0, 0] else !![0, 1; 0, 0])
+    [fun s => if s = 0 then !![2, 0; 0, 0] else !![3, 0; 0, 0]])[1]? =
+    some (fun s => !![1, 1; 0, 1] * (if s = 0 then !![2, 0; 0, 0] else !![3, 0; 0, 0])) := rfl
+
+end Yaqs.Mps.Alg
